@@ -93,6 +93,18 @@ void harness(void)
 	nm[NAMELEN] = 0;
 	for (int i = 0; i < TLEN; ++i) { TGT[i] = (char)ND_U8(); VP_ASSUME(TGT[i] != 0); }
 	TGT[TLEN] = 0;
+#ifdef SOCKET
+	/* an entry type tar cannot represent: the caller skips it, so NOTHING may
+	   have been written for it (an orphaned long-name / xattr record would be
+	   taken for the next member's) */
+	ENT.e.mode = S_IFSOCK | 0644;
+	ENT.e.uid = 1; ENT.e.gid = 2; ENT.e.mtime = 3;
+	ret = write_tar_header(&out, &ENT.e, NULL, NULL, 0);
+	VP_ASSERT(ret != 0, "a socket cannot be stored in a tar archive");
+	VP_ASSERT(nrec == 0, "C04: an entry that is refused leaves no record behind (no orphaned GNU long-name / PAX record in front of the next member)");
+	VP_REACH("refused");
+	return;
+#endif
 	ENT.e.mode = (TLEN ? S_IFLNK | 0777 : S_IFDIR | 0755);
 	ENT.e.size = TLEN;
 	ENT.e.uid = 1; ENT.e.gid = 2; ENT.e.mtime = 3;
